@@ -159,6 +159,11 @@ def rel(a, b):
     return float(np.abs(np.asarray(a) - np.asarray(b)).max())
 
 
+def has_link_masses(am, n):
+    m, c = getattr(am, "_link_masses", None), getattr(am, "_link_mass_grav_centers", None)
+    return m is not None and c is not None and len(np.atleast_1d(m)) >= n + 1 and len(c) >= n + 1
+
+
 def eval_point(acc, arm, ref, case, th):
     from basic_robotics.general import Wrench
     n = ref.n
@@ -228,7 +233,9 @@ def eval_point(acc, arm, ref, case, th):
             flag("statics_inverse", rel(bv, Fv), 1e-8 * fn * jn / smin)
     # gravity loading by link weights
     am = arm
-    if getattr(am, "_link_masses", None) is not None and len(np.atleast_1d(am._link_masses)) >= n + 1 and len(am._link_mass_grav_centers) >= n + 1:
+    # (the library keeps the link masses and their centres of gravity in private tables with no getter; an arm that does not
+    # have them under these names is counted, and the clause is not evaluated for it)
+    if has_link_masses(am, n):
         a1, a2, a3 = copy.deepcopy(arm), copy.deepcopy(arm), copy.deepcopy(arm)
         Fv = WBASIS[-1]
         t_with = np.asarray(a1.staticForcesWithLinkMasses(Wrench(Fv.copy()), th.copy()), float).reshape(-1)
@@ -277,8 +284,7 @@ def eval_pairs(acc, arm, ref, case, th):
     qd = np.linspace(0.7, -1.1, n)
     have_links = bool(ref.L) and len(ref.L) >= n
     am = arm
-    have_mass = (getattr(am, "_link_masses", None) is not None and len(np.atleast_1d(am._link_masses)) >= n + 1
-                 and len(am._link_mass_grav_centers) >= n + 1)
+    have_mass = has_link_masses(am, n)
     Q = {
         "FK": (lambda a, q, W, v: a.FK(q).gTM(), T, 1e-7 * sp),
         "jacobian": (lambda a, q, W, v: a.jacobian(q), J, 1e-9 * jn),
